@@ -124,7 +124,42 @@ func checkC17(c *Check) {
 			c.Cond(!leaks, "3/thread-affinity", "ptracer.Trace:unlock-on-every-path", p.Pos(lockT.Pos()), "every path after LockOSThread has registered or made the unlock",
 				"Trace can return with its OS thread still locked ("+p.trail(trail)+"): when the goroutine ends the runtime destroys the thread, which kills every container init forked from it (parent-death signal)")
 		}
-		c.Expect("3/thread-affinity", 2)
+		// nobody else undoes the pin: LockOSThread nests by count, so an UnlockOSThread without its own LockOSThread
+		// (anywhere below Trace: the launch, the sync handshake, a handler) cancels the tracer's lock, the goroutine
+		// migrates, and every later ptrace request fails with ESRCH — the error the tracer deliberately swallows
+		nUnl, badUnl, badPos := 0, "", ""
+		for _, fn := range p.AllFuncs() {
+			if !inModule(fn) || fn.Pkg == nil || strings.HasSuffix(fn.Pkg.Pkg.Path(), "_test") {
+				continue
+			}
+			var locks, unlocks []ssa.CallInstruction
+			for _, ci := range callInstrs(fn) {
+				switch n, _ := calleeOf(ci); n {
+				case "runtime.LockOSThread":
+					locks = append(locks, ci)
+				case "runtime.UnlockOSThread":
+					unlocks = append(unlocks, ci)
+				}
+			}
+			for _, u := range unlocks {
+				nUnl++
+				paired := false
+				for _, l := range locks {
+					if dominatesInstr(l, u) {
+						paired = true
+					}
+				}
+				if (!paired || len(unlocks) > len(locks)) && badUnl == "" {
+					badUnl, badPos = funcName(fn), p.Pos(u.Pos())
+				}
+			}
+		}
+		if badPos == "" {
+			badPos = p.Pos(tr.Pos())
+		}
+		c.Cond(badUnl == "" && nUnl > 0, "3/thread-affinity", "module:unpaired-unlock", badPos, fmt.Sprintf("all %d UnlockOSThread calls undo a LockOSThread of the same function", nUnl),
+			"runtime.UnlockOSThread in "+badUnl+" has no LockOSThread of its own before it: it cancels the lock of a caller (the tracer's thread pin), after which ptrace requests are issued from the wrong thread")
+		c.Expect("3/thread-affinity", 3)
 	}
 	// the process-wide switch of the string reader flips only when the primitive does not exist (the assumption
 	// under which it is allow-listed above): rule C02.7, and the sync-pair descriptors are released exactly once: C12.2
